@@ -423,9 +423,11 @@ class Header(Field):
                 return 5
 
         else:
-            # old-format length: keep the width that was parsed, unless the length no longer fits in it
-            if self._llen and self.length >= (1 << (8 * self._llen)):
-                return 2 if self.length < 65536 else 4
+            # old-format length: keep the width that was parsed, unless the length no longer fits in it.
+            # a packet that arrived with an indeterminate length (which is only possible for the last packet of
+            # its input) is written with a definite length, so that it can be followed by other packets
+            if self._llen == 0 or self.length >= (1 << (8 * self._llen)):
+                return 1 if self.length < 256 else 2 if self.length < 65536 else 4
             return self._llen
 
     @llen.register(int)
